@@ -553,6 +553,14 @@ impl<'a> ParserState<'a> {
     // get_string()
     // Get the content of a String token as a string
     pub(crate) fn get_string(&mut self, context: &ParseContext) -> Result<String, ParserError> {
+        // skip comments first, so that a comment cannot influence which of the two cases below is used
+        while let Some(A2lToken {
+            ttype: A2lTokenType::Comment,
+            ..
+        }) = self.peek_token()
+        {
+            self.get_token(context)?;
+        }
         let text = if let Some(
             token @ A2lToken {
                 ttype: A2lTokenType::Identifier,
